@@ -17,8 +17,8 @@ RULE = ("explicit-state BFS over all call histories (add/union/find/connected/co
         "distinct (real-object canonical dump, model) state; non-trivial = at least one element/item present")
 ASSUMPTIONS = ["elements restricted to the 3-4 element alphabets listed in the tasks; priorities to {-inf,-1,0,1,inf}",
                "depth bound as given in coverage.bounds; all histories below it are explored (no sampling)"]
-BOUNDS = {"quick": "union-find depth 4 (ints: 5), priority queue depth 5",
-          "thorough": "union-find depth 6 (ints: 7), priority queue depth 7"}
+BOUNDS = {"quick": "union-find depth 4 (ints: 5); priority queue depth 5 with two item names, depth 7 with one item name, priorities {0,1,-1,inf,-inf}",
+          "thorough": "union-find depth 6 (ints: 7); priority queue depth 7 with two item names, depth 9 with one"}
 
 ALPHABETS = {
     "ints": [0, 1, 2, 3],
@@ -36,12 +36,14 @@ def tasks(tier):
         for init in ("empty", "prefilled"):
             out.append({"kind": "uf", "alphabet": alpha, "init": init,
                         "depth": d + (1 if alpha == "ints" else 0)})
-    d = {"quick": 5, "thorough": 7}[tier]
-    # the search is split by the first event (every history of length >= 1 starts with exactly one of them);
-    # the task with the empty prefix explores depth 1 only so that the initial state is covered too
-    out.append({"kind": "pq", "depth": 1, "prefix": []})
-    for ev in [["push", x, p] for p in PRIOS for x in ITEMS] + [["get"], ["pop"], ["front"], ["empty"]]:
-        out.append({"kind": "pq", "depth": d - 1, "prefix": [ev]})
+    # Priority queue. The search is split by the first event (every history of length >= 1 starts with exactly one
+    # of them); the task with the empty prefix explores depth 1 only so that the initial state is covered too.
+    # Family A: two distinguishable items (ties between different items), family B: one item name, deeper (heap
+    # shape defects need >= 6 pending items).
+    out.append({"kind": "pq", "depth": 1, "prefix": [], "items": ["a", "b"]})
+    for items, d in ((["a", "b"], {"quick": 5, "thorough": 7}[tier]), (["a"], {"quick": 7, "thorough": 9}[tier])):
+        for ev in [["push", x, p] for p in PRIOS for x in items] + [["get"], ["pop"], ["front"], ["empty"]]:
+            out.append({"kind": "pq", "depth": d - 1, "prefix": [ev], "items": items})
     return out
 
 
@@ -276,7 +278,7 @@ class PQState:
 
 def _run_pq(task, rep: Report):
     from mouette.utils import PriorityQueue
-    events = [("push", x, p) for p in PRIOS for x in ITEMS] + [("get",), ("pop",), ("front",), ("empty",)]
+    events = [("push", x, p) for p in PRIOS for x in task.get("items", ITEMS)] + [("get",), ("pop",), ("front",), ("empty",)]
     icls = "pq"
 
     prefix = [tuple(e) for e in task.get("prefix", [])]
